@@ -250,13 +250,15 @@ def sc_all_vars(n):
     def body(api, v):
         its = list(v)
         R = api.reading
+        # user variable names that contain the catalogue's own key names as substrings ('it', 't')
         data = {'it': list(its), 't': [api.tag('t', 0, i) for i in its], 'v': [api.tag('v', 1, i) for i in its],
-                'w': [api.tag('w', 1, i) for i in its]}
+                'w': [api.tag('w', 1, i) for i in its], 'density': [api.tag('density', 1, i) for i in its],
+                'split_tt': [api.tag('split_tt', 1, i) for i in its]}
         R.save_data({'datapath': api.root + '/d/'}, data, it=list(its))          # vars=[] -> everything
         out = R.read_data({'datapath': api.root + '/d/'}, it=list(its))             # vars=[] -> everything
         ss = sorted(its)
         probs = []
-        for key in ('v', 'w', 't'):
+        for key in ('v', 'w', 't', 'density', 'split_tt'):
             if key not in out or len(out[key]) != len(ss):
                 probs.append(f'column {key} missing or of wrong length when reading all variables')
                 continue
